@@ -36,7 +36,8 @@ def judge(case, res, prefix):
         return [("C03|encode-hang|%s" % hs, "encode did not finish within the watchdog (%.0fs); boundary log tail: %s"
                  % (res.wall, common.log_tail(prefix)))]
     if enc.crashed(res) or res.res is None:
-        return [("C03|encoder-crash|%s" % common.feature_sig(case), "encdrv died rc=%s: %s" % (res.rc, res.stderr[-300:]))]
+        return [(None, "encoder process died (rc=%s) before the history could be judged: C11's subject [%s]"
+                 % (res.rc, common.feature_sig(case)))]
     if res.res.get("api_error") == 2:
         return [("rejected-config", res.res.get("errmsg", ""))]
     if res.res.get("api_error"):
